@@ -120,6 +120,69 @@ def instr_oracle(prog, obs, impl):
     return fails
 
 
+BASES = {1: 'U', 2: 'L', 3: 'g', 4: 'mol'}
+
+
+def stated_amounts(prog, obs, impl):
+    """per operation: the (value, unit) the implementation's instruction line states, for the lines the model covers"""
+    out = []
+    for i, op, o, dumps in oracles.walk(prog, obs):
+        a = None
+        if o['ok']:
+            try:
+                if op['op'] == 'transfer' and 'c' in op['src'] and 'c' in op['dst']:
+                    am = parse_amounts(impl.env[op['odst']].instructions.splitlines()[-1])
+                    a = am[0] if am else None
+                elif op['op'] == 'fill' and 'c' in op['t']:
+                    if dumps[op['t']['c']]['cont'] != dict(o['out'])[op['out']]['cont'] or True:
+                        am = parse_amounts(impl.env[op['out']].instructions.splitlines()[-1])
+                        a = am[0] if am else None
+                elif op['op'] == 'dilute':
+                    if dumps[op['v']]['cont'] != dict(o['out'])[op['out']]['cont']:
+                        am = parse_amounts(impl.env[op['out']].instructions.splitlines()[-1])
+                        a = am[0] if am else None
+            except Exception:  # noqa
+                a = None
+        out.append(a)
+    return out
+
+
+def decode_instr(ints, nops):
+    r = common.Reader(ints)
+    res = []
+    for _ in range(nops):
+        if r.int() == 0:
+            res.append(None)
+        else:
+            b, p = r.int(), r.int()
+            res.append((r.q(), PCODE[p].replace('µ', 'u') + BASES[b]))
+    assert r.done()
+    return res
+
+
+def instr_compare(prog, obs, impl, model):
+    """differences between the stated amounts of the implementation and the model's (display precision)"""
+    diffs = []
+    for i, (a, m, o) in enumerate(zip(stated_amounts(prog, obs, impl), model, obs)):
+        if a is None or m is None or not o['ok']:
+            continue
+        v, u = a
+        mv, mu = m
+        if mv == 0:
+            continue
+        if u.replace('µ', 'u') != mu:
+            # the same amount under another prefix is a difference only if the values disagree as well
+            pu, bu = split_unit(u)
+            pm_, bm = split_unit(mu)
+            if bu != bm or abs(v * SI[pu][1] - mv * SI[pm_][1]) > abs(mv * SI[pm_][1]) * F(1, 100):
+                diffs.append((i, f"instruction of op {i} states {float(v)} {u}, the model {float(mv)} {mu}"))
+            continue
+        prec = PREC.get(u, 3)
+        if abs(v - mv) > F(10) ** (-prec) * F(51, 100) + abs(mv) * F(1, 10**6):
+            diffs.append((i, f"instruction of op {i} states {float(v)} {u}, the model {float(mv)!r} {mu}"))
+    return diffs
+
+
 def recipe_instr_oracle(prog, rg, out, rec):
     """baked fill_to / dilute steps on containers: 'by adding X unit' equals the solvent actually added by that step"""
     fails = []
@@ -209,6 +272,7 @@ def run(chk, gate, status):
     # ---------------- instruction texts of histories (all magnitudes: ordinary and trace scale) and recipes
     nlines = 0
     n = 40 if not full else 300
+    hist = []
     for i in range(n):
         rng = random.Random(chk.seed * 100003 + 190000 + i)
         g = gen.history(rng, rng.randint(5, 10), with_plates=False, trace=(i % 3 == 2),
@@ -217,6 +281,7 @@ def run(chk, gate, status):
         for _ in range(2):
             C11.add_dilute(g, rng)
         f = instr_oracle(g.prog(), g.obs, g.impl)
+        hist.append((g, bool(f)))
         nlines += sum(1 for o in g.obs if o['ok'])
         if f:
             nfail += 1
@@ -246,11 +311,32 @@ def run(chk, gate, status):
             nfail += 1
             if nfail <= 3:
                 chk.violation(f[0], {'recipe': prog, 'failures': f[:5]})
+    # the instruction amounts of the same histories on the model (Instr2.v)
+    iterms = [dsl.to_coq(g.prog(), fn='showInstrRun') for g, _ in hist]
+    imodel, ierrors = common.coq_eval('C19i', 'Base Units Contents Container Dilute Solve Plate Prog Instr Instr2', iterms, chunk=6)
+    ninstr = 0
+    for (g, failed), m in zip(hist, imodel):
+        if m is None:
+            ndis += 1
+            continue
+        try:
+            dm = decode_instr(m, len(g.ops))
+            d = instr_compare(g.prog(), g.obs, g.impl, dm)
+            ninstr += sum(1 for x in dm if x is not None)
+        except Exception as e:  # noqa
+            d = [(0, f"cannot decode the model's instruction amounts: {type(e).__name__} {e}")]
+        if d:
+            ndis += 1
+            if not failed and ndis <= 3:
+                chk.violation('model/implementation disagree: ' + d[0][1],
+                              {'relation': 'Instr2.showInstrRun ~ instruction lines', 'program': dict(g.prog(), ops=g.ops[:d[0][0] + 1]),
+                               'differences': [t for _, t in d[:4]]}, found_input=False)
+    errors = errors + ierrors
     if errors:
         chk.violation('model evaluation failed: ' + errors[0][:300], {'relation': 'coq_eval C19'}, found_input=False)
     chk.assumptions += ["the instruction texts are parsed back with a small grammar (number unit [of name]); Python's float formatting is glue",
                         "stated amounts are compared with the actual ones to the displayed precision (config.precisions) plus 1e-6 relative"]
-    return {'evaluations': len(cases) + nlines, 'programs': len(cases), 'instruction_lines_checked': nlines,
+    return {'evaluations': len(cases) + nlines + ninstr, 'programs': len(cases), 'instruction_lines_checked': nlines, 'instruction_amounts_compared_with_model': ninstr,
             'distinct_nontrivial': len(nontrivial), 'rule': RULE, 'exhaustive': True,
             'exhaustive_bound': 'magnitudes 1e-12 .. 9.99e3 by ' + ('quarter' if full else 'half') + '-decades x ' + str(len(prefixes)) + ' incoming prefixes x 4 base units; 6 substances',
             'disagreements_checked': ndis, 'oracle_failures': nfail, 'samples': samples}
